@@ -99,11 +99,14 @@ func (s *MonitoredItemService) DeleteSub(id uint32) {
 
 func (s *MonitoredItemService) ChangeNotification(n *ua.NodeID) {
 
+	// The notifications are sent without holding the lock: the channel of
+	// a subscription which is busy sending or which is shutting down
+	// does not take them, and the shutdown itself needs the lock.
 	s.Mu.Lock()
-	defer s.Mu.Unlock()
-	items, ok := s.Nodes[n.String()]
+	items := slices.Clone(s.Nodes[n.String()])
+	s.Mu.Unlock()
 
-	if !ok {
+	if len(items) == 0 {
 		// this node isn't monitored - don't have to do anything.
 		return
 	}
@@ -124,12 +127,13 @@ func (s *MonitoredItemService) ChangeNotification(n *ua.NodeID) {
 			val.Value = &ua.DataValue{}
 			val.Value.Status = ua.StatusBad
 			val.Value.EncodingMask |= ua.DataValueStatusCode
-			item.Sub.NotifyChannel <- val
-			continue
+		} else {
+			val.Value = ns.Attribute(n, item.Req.ItemToMonitor.AttributeID)
 		}
-		dv := ns.Attribute(n, item.Req.ItemToMonitor.AttributeID)
-		val.Value = dv
-		item.Sub.NotifyChannel <- val
+		select {
+		case item.Sub.NotifyChannel <- val:
+		case <-item.Sub.shutdown:
+		}
 	}
 
 }
